@@ -28,7 +28,7 @@ Section C10.
     induction fs as [|f fs IH]; intros r st; simpl.
     - unfold ret. now rewrite st_app_nil.
     - unfold bindM at 1. unfold getattrM. destruct (getattr (s_heap st) r (f_name f)) as [v|] eqn:E.
-      + unfold bindM at 1. unfold emit. unfold bindM at 1. unfold get_heap. simpl s_heap.
+      + unfold bindM at 1. unfold emit. unfold bindM at 1. unfold get_heap. cbn [s_heap s_journal].
         destruct (check (s_heap st) (f_ann f) v) eqn:Ec.
         * rewrite IH. simpl. unfold st_app. simpl. now rewrite <- app_assoc.
         * reflexivity.
@@ -72,7 +72,7 @@ Section C10.
     - simpl. unfold raise. now rewrite st_app_nil.
     - simpl. unfold ret. now rewrite st_app_nil.
     - simpl. unfold bindM, emit. destruct b; reflexivity.
-    - rewrite ref_run_new. unfold bindM at 1. rewrite IH.
+    - unfold P in *. rewrite ref_run_new. unfold bindM at 1. rewrite IH.
       destruct (snd (pi_spec old (evf (s_heap st)) (resf (s_heap st)))) as [[]|e] eqn:E.
       + unfold bindM at 1. unfold ret at 1. unfold bindM. rewrite Hv. simpl s_heap.
         simpl pi_spec. rewrite E. simpl. rewrite st_app_app.
@@ -103,8 +103,8 @@ Section C10.
     - discriminate.
     - reflexivity.
     - simpl. destruct b; reflexivity.
-    - rewrite (IH ev res Hwf eq_refl). destruct (user_of (PFNew old')) as [[c [|e]]|]; try reflexivity.
-      destruct res as [[]|e]; reflexivity.
+    - rewrite (IH ev res Hwf eq_refl).
+      destruct (user_of (PFNew old')) as [[c [|e]]|]; try reflexivity; destruct res as [[]|e']; reflexivity.
   Qed.
 
   (* journal: the user's entry (if any) first, then check events only *)
@@ -114,7 +114,7 @@ Section C10.
       (forall e, user_raises f = Some e -> checks = []).
   Proof.
     intros f ev res Hev. induction f as [| |c b|old IH]; intro Hwf.
-    - exists []. repeat split; try reflexivity. intros e H; discriminate.
+    - exists []. repeat split; try reflexivity.
     - exists []. repeat split; try reflexivity.
     - exists []. repeat split; reflexivity.
     - assert (Hwf' : pi_wf old = true) by (destruct old; simpl in *; try reflexivity; try discriminate; assumption).
@@ -131,5 +131,94 @@ Section C10.
           -- assert (pi_wf o = true) by (destruct o; simpl in *; try reflexivity; try discriminate; assumption).
              destruct (snd (pi_spec o ev res)) as [[]|e'] eqn:E'; [|discriminate]. now apply IHo.
       + exists checks. split; [assumption|]. split; [|assumption]. simpl. exact H2.
+  Qed.
+
+  (* ---- every construction path is: compute keyword arguments, build the candidate, run __post_init__ *)
+  Definition post (C : chain) (r : nat) : M nat :=
+    match nearest_deco C with
+    | Some D => if init_calls_pi P D then bindM (run_pi P (resolve_pi P C) (validate_types P check C r)) (fun _ => ret r) else ret r
+    | None => ret r
+    end.
+
+  Lemma run_path_eq : forall C p st, nearest_deco C <> None ->
+    run_path P check C p st = bindM (path_candidate P C p) (post C) st.
+  Proof.
+    intros C p st HD. destruct (nearest_deco C) as [D|] eqn:ED; [clear HD|congruence].
+    unfold path_candidate. rewrite bindM_assoc. destruct p as [kw|r0 kw|r0 kw]; simpl.
+    - unfold construct, post. reflexivity.
+    - unfold copy_with. simpl. rewrite ED. rewrite (nearest_deco_fields _ _ ED). reflexivity.
+    - unfold deep_copy_with. simpl. reflexivity.
+  Qed.
+
+  Lemma candidate_fields_set : forall C kw st0 st1 r,
+    candidate C kw st0 = (st1, Ok r) -> chain_ok C = true ->
+    forall f, In f (dc_fields C) -> getattr (s_heap st1) r (f_name f) <> None.
+  Proof.
+    intros C kw st0 st1 r H Hok f Hf.
+    destruct (candidate_spec _ _ _ _ _ H) as [D [attrs [ext [HD [HB [Hh [Hr [Hj _]]]]]]]].
+    rewrite Hh, Hr, getattr_new. simpl.
+    destruct (build_attrs_spec _ _ _ _ _ HB (dc_fields_nodup C)) as [_ HF].
+    destruct (HF f Hf) as [_ [B _]]. apply B.
+    unfold chain_ok in Hok. rewrite forallb_forall in Hok. now apply Hok.
+  Qed.
+
+  Lemma validate_appender : forall C D r, nearest_deco C = Some D ->
+    forall st, validate_types P check C r st =
+      (st_app st (fst (checks_prefix (s_heap st) r (dc_fields C))), snd (checks_prefix (s_heap st) r (dc_fields C))).
+  Proof.
+    intros C D r HD st. unfold P. rewrite ref_validate, HD, (nearest_deco_fields _ _ HD). apply check_loop_eq.
+  Qed.
+
+  (* the main statement about construction *)
+  Lemma path_outcome : forall C p st st1 r,
+    chain_ok C = true -> validating P C = true ->
+    path_candidate P C p st = (st1, Ok r) ->
+    let h1 := s_heap st1 in
+    let J := fst (pi_spec (resolve_pi P C) (fst (checks_prefix h1 r (dc_fields C))) (snd (checks_prefix h1 r (dc_fields C)))) in
+    run_path P check C p st =
+      (st_app st1 J,
+       match user_raises (resolve_pi P C) with
+       | Some e => Raise e
+       | None => if all_conform check h1 (dc_fields C) r then Ok r else Raise PTypeCheckC
+       end).
+  Proof.
+    intros C p st st1 r Hok Hval Hc h1 J.
+    unfold validating in Hval. destruct (nearest_deco C) as [D|] eqn:HD; [|discriminate].
+    apply andb_true_iff in Hval as [Hinit Hnew].
+    rewrite run_path_eq by congruence. unfold bindM at 1. rewrite Hc. unfold post. rewrite HD, Hinit.
+    unfold bindM at 1.
+    rewrite (run_pi_eq (validate_types P check C r) (fun h => fst (checks_prefix h r (dc_fields C)))
+                       (fun h => snd (checks_prefix h r (dc_fields C))) (validate_appender C D r HD)).
+    fold h1. fold J. rewrite (pi_spec_outcome _ _ _ (resolve_pi_wf C) Hnew).
+    destruct (user_raises (resolve_pi P C)) as [e|]; [reflexivity|].
+    (* fields are all set on the candidate *)
+    unfold path_candidate, bindM in Hc. destruct (path_args P C p st) as [st0 [args|e]] eqn:Ea; [|discriminate].
+    rewrite checks_prefix_outcome by (intros f Hf; eapply candidate_fields_set; eassumption).
+    destruct (all_conform check h1 (dc_fields C) r); reflexivity.
+  Qed.
+
+  Lemma path_raises_early : forall C p st st1 e, nearest_deco C <> None ->
+    path_candidate P C p st = (st1, Raise e) -> run_path P check C p st = (st1, Raise e).
+  Proof. intros C p st st1 e HD H. rewrite run_path_eq by assumption. unfold bindM. now rewrite H. Qed.
+
+  (* ---- validate_types called by the user *)
+  Lemma validate_outcome : forall C r st, nearest_deco C <> None ->
+    (forall f, In f (dc_fields C) -> getattr (s_heap st) r (f_name f) <> None) ->
+    exists checks, forallb is_check checks = true /\
+    validate_types P check C r st =
+      (st_app st checks, if all_conform check (s_heap st) (dc_fields C) r then Ok tt else Raise PTypeCheckC).
+  Proof.
+    intros C r st HD Hs. destruct (nearest_deco C) as [D|] eqn:ED; [|congruence].
+    rewrite (validate_appender C D r ED). rewrite checks_prefix_outcome by assumption.
+    eexists. split; [apply checks_prefix_events|reflexivity].
+  Qed.
+
+  (* head class decorated with type_safe=True => validating *)
+  Lemma decorated_type_safe_validating : forall L rest,
+    decorated L = true -> param_of P L PTypeSafe = true -> validating P (L :: rest) = true.
+  Proof.
+    intros L rest HL HT. unfold validating. simpl nearest_deco. rewrite HL.
+    unfold init_calls_pi. unfold P. rewrite ref_ts_installed, ref_install. fold P. rewrite HL, HT. simpl.
+    rewrite !orb_true_r. simpl. unfold P. rewrite ref_ts_installed. fold P. now rewrite HL, HT.
   Qed.
 End C10.
